@@ -250,7 +250,9 @@ def run_history(out, hist, tag):
     """hist: dict(fmt, tracer, rounds=[{spec, target, sf, stop_after, kind,
     foreign}], final={spec,target,sf})."""
     wd = Workdir()
-    ext = '.json.gz' if hist['fmt'] == 'gz' else '.json'
+    # 'gzbare': a results file named results.gz (no .json before it), which
+    # save_json and load_json both accept as gzip (round 7)
+    ext = {'gz': '.json.gz', 'gzbare': '.gz'}.get(hist['fmt'], '.json')
     out_file = wd.path('results' + ext)
     desc = {'k': tag, 'fmt': hist['fmt'], 'tracer': hist['tracer'],
             'rounds': [{kk: r[kk] for kk in ('target', 'sf', 'stop_after',
@@ -696,6 +698,8 @@ def plan(tier, seed):
         for tracer in (True, False):
             tasks.append({'kind': 'boundary', 'fmt': fmt, 'tracer': tracer,
                           'tier': tier, 'cost': 3000})
+    tasks.append({'kind': 'boundary', 'fmt': 'gzbare', 'tracer': True,
+                  'tier': tier, 'cost': 3000})
     tasks.append({'kind': 'nearmiss', 'cost': 4000})
     nh = 40 if tier == 'quick' else 1200
     per = 10 if tier == 'quick' else 50
